@@ -151,3 +151,37 @@ package alert
 //@   props C09
 //@   requires s != nil && s.handlers != nil && s.specsDAO != nil && s.topics != nil
 //@   guardcall ReplaceHandler#1: arg0 == newSpec.Topic && arg1 == old(s.handlers[newSpec.Topic][oldSpec.ID].Handler) && arg2 == callresult(createHandlerFromSpec, 0).Handler
+
+// ---------------------------------------------------------------- service.go: restoring one topic (C08)
+// "every alert ID resumes at the level that was recorded for it": each stored value of the topic's
+// bucket is decoded by a lexer that stands at the beginning of THAT value, with no error pending
+// (a lexer carried over from the previous value fails on the second ID and the restore is lost).
+// Assumed (trusted) of the collaborators: the store hands out non-nil buckets and lists of non-nil
+// entries and touches nothing; decoding writes the decoding buffer and the lexer only.
+//@ func =(github.com/influxdata/kapacitor/services/storage.ReadOnlyTx).Bucket
+//@   trusted
+//@   modifies nothing
+//@   ensures result != nil
+//@ func =(github.com/influxdata/kapacitor/services/storage.ReadOperator).List
+//@   trusted
+//@   modifies nothing
+//@   ensures forall k int :: 0 <= k && k < len(result0) ==> result0[k] != nil
+//@ func (*EventState).UnmarshalEasyJSON
+//@   trusted
+//@   modifies object(v), object(l)
+//@ func =(*github.com/mailru/easyjson/jlexer.Lexer).Error
+//@   trusted
+//@   modifies nothing
+//@ func (*EventState).AlertEventState
+//@   trusted
+//@   modifies nothing
+//@   ensures result != nil
+//@ func (*EventState).Reset
+//@   trusted
+//@   modifies object(e)
+//@ func (*Service).restoreTopic$1
+//@   props C08
+//@   requires s != nil && s.topics != nil && tx != nil
+//@   guardcall UnmarshalEasyJSON#1: arg0 != nil && arg0.Data == b.Value && arg0.pos == 0 && arg0.fatalError == nil
+//@   loop 1
+//@     invariant s != nil && s.topics != nil && es != nil && eventStates != nil
